@@ -1,4 +1,5 @@
-"""C09 - shortest paths are valid edge paths of minimum length (point-to-point, to a vertex set, to the border)."""
+"""C09 - shortest paths are valid edge paths of minimum length (point-to-point, to a vertex set, to the border; single
+queries on fresh meshes and histories of queries on one mesh object)."""
 import math
 import random
 from hypothesis import strategies as st
@@ -10,23 +11,34 @@ from vlib.topo import SurfRef, TetRef, key
 from vlib.build import surface_from, volume_from, polyline_from
 
 PROPERTY = "C09"
-RULE = ("One query per case on a generated mesh: polylines (paths, cycles, trees, random simple graphs, lattice graphs with "
+RULE = ("Sub-checks point_to_point / vertex_set / border: one query per case on a fresh generated mesh; sub-check history: "
+        "2-6 queries of mixed kinds issued one after another on ONE mesh object (60% keep the previous weight mode, 60% the "
+        "previous start; later set queries prefer targets at least as far as the members of earlier sets; the same dict / "
+        "Attribute weight objects are reused), interleaved (10% of steps) with in-place edits of vertex coordinates (uniform "
+        "rescale or moved vertices) or of entries of the custom weight objects; every query is validated against the "
+        "reference for the state at that moment, and after every call the mesh, the targets argument and all weight objects "
+        "are compared with snapshots. Meshes: polylines (paths, cycles, trees, random simple graphs, lattice graphs with "
         "integer coordinates, wheels/ladders; optional second component and isolated vertices; random relabelling and edge "
         "orientation), surfaces (vlib.gen_surface.surfaces, <=40 faces, incl. disjoint unions, tori, polygons; Delaunay disks "
         "<=30 points; for border queries closed surfaces are mostly punctured by removing 1-2 faces so that the start can be "
-        "several edges away from the border) and tet meshes (vlib.gen_tets.tets, <=25 cells). Entry points shortest_path (target as int / list / set / tuple, 1-6 targets, "
-        "duplicates in lists, start among the targets, whole component), shortest_path_to_vertex_set (1-6 targets incl. "
-        "singletons, start in the set, optionally extra members in other components) and shortest_path_to_border (start in "
-        "a bordered component, incl. start on the border; closed surfaces must raise the documented exception). Weights: "
-        "omitted, 'length', 'one', dict, sparse Attribute (all written / only non-zeros written) and dense Attribute, with "
-        "values from {0..3}, zero-heavy, all-zero, all-equal, dyadic, uniform floats and 6 decades wide; export_path_mesh "
-        "on/off/omitted. Oracle: Bellman-Ford distances from the case's own edge list. non-trivial = some requested target "
-        "(some border vertex of the start's component) is joined to the start by >= 2 distinct simple paths; distinct = "
-        "distinct realised cases.")
+        "several edges away from the border) and tet meshes (vlib.gen_tets.tets, <=25 cells); coordinates uniformly scaled by "
+        "1, 1e-3, 1e-6, 1e3 or 1e6; integral coordinates optionally stored as int64 rows. Entry points shortest_path (target "
+        "as int / list / set / tuple / numpy array, 1-6 targets, duplicates in lists, start among the targets, whole "
+        "component), shortest_path_to_vertex_set (1-6 targets incl. singletons, start in the set, optionally extra members in "
+        "other components) and shortest_path_to_border (start in a bordered component, incl. start on the border; closed "
+        "surfaces must raise the documented exception). Vertex ids as Python ints or numpy.int64. Weights: omitted, 'length', "
+        "'one', dict, sparse Attribute (all written / only non-zeros written) and dense Attribute, with values from {0..3}, "
+        "zero-heavy, all-zero, all-equal, dyadic, uniform floats and 6 decades wide, optionally scaled by 1e-6 / 1e6; "
+        "export_path_mesh on/off/omitted. Oracle: Bellman-Ford distances from the case's own edge list. non-trivial = some "
+        "requested target (some nearest border vertex) of some query is joined to the start by >= 2 distinct simple paths; "
+        "distinct = distinct realised cases.")
 ASSUMPTIONS = ["graphs are simple (no loops, no parallel edges); surfaces / tet meshes are manifold as produced by the shared generators",
                "weights are finite and non-negative and a custom weight is supplied for every edge id of the mesh's edge container",
                "every point-to-point target lies in the start's component; a set/border query has at least one reachable member",
-               "start / targets are Python ints; target collections are list / set / tuple"]
+               "start / collection members are Python ints or numpy.int64; a scalar target is a Python int (as documented); "
+               "target collections are list / set / tuple / 1-d integer numpy array",
+               "between two queries a caller may assign new coordinates to mesh.vertices[i] and new values to entries of its own "
+               "weight dict / Attribute; the next query must answer for the current state"]
 
 REL_TOL = 1e-9
 
@@ -193,101 +205,220 @@ def realise_weights(rnd, wkind, m):
 WMODES = ["omitted", "length", "one", "one", "dict", "dict", "attr", "attr_partial", "attr_dense"]
 
 
+SCALES = [1.0, 1.0, 1.0, 1e-3, 1e-6, 1e3, 1e6]
+WSCALES = [1.0, 1.0, 1.0, 1.0, 1e-6, 1e6]
+
+
+class GraphInfo:
+    """what the query generators need to know about the mesh (from the case alone)"""
+
+    def __init__(self, case):
+        self.n = len(case["V"])
+        self.E = ref_edges(case)
+        self.lab = RG.component_labels(self.n, self.E)
+        self.deg = [0] * self.n
+        for a, b in self.E:
+            self.deg[a] += 1; self.deg[b] += 1
+        self.nonisolated = [v for v in range(self.n) if self.deg[v] > 0]
+        self.bv = set()
+        if case["kind"] == "surface":
+            self.bv = set(SurfRef(self.n, case["F"]).border_vertices())
+        blabs = set(self.lab[v] for v in self.bv)
+        self.border_cand = [v for v in range(self.n) if self.lab[v] in blabs]      # vertices that can reach the border
+        self._hops = {}
+
+    def hops(self, v):
+        if v not in self._hops:
+            self._hops[v] = RG.bfs_hops(self.n, self.E, v)
+        return self._hops[v]
+
+
+def scale_mesh(draw, mesh):
+    """uniform scaling of the coordinates (the property is scale covariant for 'length', invariant otherwise)"""
+    f = draw(st.sampled_from(SCALES))
+    if f != 1.0:
+        mesh = dict(mesh)
+        mesh["V"] = [[x * f for x in v] for v in mesh["V"]]
+    mesh["tags"] = list(mesh["tags"]) + ["scale=%g" % f]
+    return mesh
+
+
+def gen_border_start(draw, rnd, G):
+    cand = G.border_cand
+    if not cand:
+        return rnd.randrange(G.n)           # closed surface: the documented exception is expected
+    inner = [v for v in cand if v not in G.bv]
+    style = draw(st.sampled_from(["any", "on-border", "inner", "inner", "deep", "deep"]))
+    if style == "on-border" or not inner:
+        pool = sorted(G.bv) if style == "on-border" else cand
+    elif style == "inner":
+        pool = inner
+    elif style == "deep":
+        hop = {v: min(h for t, h in enumerate(G.hops(v)) if t in G.bv and h is not None) for v in inner}
+        mx = max(hop.values())
+        pool = [v for v in inner if hop[v] == mx]
+    else:
+        pool = cand
+    return rnd.choice(pool)
+
+
+def gen_start(draw, rnd, G):
+    if G.nonisolated and draw(st.integers(0, 11)) != 0:
+        return rnd.choice(G.nonisolated)
+    return rnd.randrange(G.n)
+
+
+def gen_targets(draw, rnd, G, entry, start, avoid=()):
+    """(targets, tform) for a point-to-point or vertex-set query from `start`. `avoid`: members of earlier target sets -
+    the 'far' style picks new targets among the vertices at least as far (in hops) as those, so that an implementation
+    remembering an earlier target would end there."""
+    comp = [v for v in range(G.n) if G.lab[v] == G.lab[start]]
+    others = [v for v in range(G.n) if G.lab[v] != G.lab[start]]
+    notstart = [v for v in comp if v != start] or comp
+    if entry == "p2p":
+        tform = draw(st.sampled_from(["int", "int", "list", "list", "set", "tuple", "array"]))
+        style = draw(st.sampled_from(["few", "few", "few", "one", "one", "with-start", "whole-component"]))
+    else:
+        tform = draw(st.sampled_from(["list", "list", "list", "set", "set", "tuple", "array"]))
+        style = draw(st.sampled_from(["few", "few", "few", "one", "one", "with-start", "unreachable-extra", "whole-component"]
+                                     + (["far", "far", "far", "far"] if avoid else [])))
+    if tform == "int" or style == "one":
+        targets = [rnd.choice(notstart if rnd.random() < 0.9 else comp)]
+    elif style == "whole-component":
+        targets = list(comp)
+        rnd.shuffle(targets)
+    elif style == "far":
+        h = G.hops(start)
+        hav = [h[a] for a in avoid if h[a] is not None and a != start]
+        lim = min(hav) if hav else 0
+        pool = [v for v in notstart if v not in avoid and h[v] >= lim] or [v for v in notstart if v not in avoid] or notstart
+        targets = [rnd.choice(pool) for _ in range(draw(st.integers(2, 4)))]
+    else:
+        targets = [rnd.choice(notstart) for _ in range(draw(st.integers(2, 6)))]
+        if style == "with-start":
+            targets.insert(rnd.randint(0, len(targets)), start)
+        if entry == "set" and others and (style == "unreachable-extra" or draw(st.integers(0, 2)) == 0):
+            for _ in range(rnd.randint(1, 2)):
+                targets.insert(rnd.randint(0, len(targets)), rnd.choice(others))
+    if tform == "set":
+        targets = sorted(set(targets))
+    return targets, tform
+
+
+def gen_weight_tables(draw, nE, k):
+    tabs, kinds = [], []
+    for _ in range(k):
+        wk = draw(st.sampled_from(WKINDS))
+        ws = draw(st.sampled_from(WSCALES))
+        W = realise_weights(random.Random(draw(st.integers(0, 10 ** 6))), wk, nE)
+        tabs.append([w * ws for w in W])
+        kinds.append(wk + ("" if ws == 1.0 else "*%g" % ws))
+    return tabs, kinds
+
+
 @st.composite
 def query_case(draw, entry):
     if entry == "border":
         mesh = draw(meshes(kinds=("border-surface",)))
     else:
         mesh = draw(meshes())
-    case = dict(mesh)
-    n = len(case["V"])
-    E = ref_edges(case)
-    lab = RG.component_labels(n, E)
-    deg = [0] * n
-    for a, b in E:
-        deg[a] += 1; deg[b] += 1
+    case = scale_mesh(draw, dict(mesh))
+    G = GraphInfo(case)
     case["entry"] = entry
     case["wmode"] = draw(st.sampled_from(WMODES))
-    case["wkind"] = draw(st.sampled_from(WKINDS))
+    tabs, kinds = gen_weight_tables(draw, len(G.E), 1)
+    case["W"], case["wkind"] = tabs[0], kinds[0]
     case["intvals"] = draw(st.booleans())
-    case["W"] = realise_weights(random.Random(draw(st.integers(0, 10 ** 6))), case["wkind"], len(E))
     case["export"] = draw(st.sampled_from(["omitted", False, True, True]))
+    case["idform"] = draw(st.sampled_from(["int", "int", "int", "numpy"]))
+    case["intcoords"] = draw(st.booleans())
     # start / targets: uniform picks from a drawn seed (Hypothesis' integer draws are biased towards 0, which would make
     # start == target in most cases); the realised values are stored in the case
     rnd = random.Random(draw(st.integers(0, 10 ** 6)))
-
     if entry == "border":
-        ref = SurfRef(n, case["F"])
-        bv = ref.border_vertices()
-        blabs = set(lab[v] for v in bv)
-        cand = [v for v in range(n) if lab[v] in blabs]
-        if cand:
-            inner = [v for v in cand if v not in bv]
-            style = draw(st.sampled_from(["any", "on-border", "inner", "inner", "deep", "deep"]))
-            if style == "on-border" or not inner:
-                pool = sorted(bv) if style == "on-border" else cand
-            elif style == "inner":
-                pool = inner
-            elif style == "deep":
-                # the vertices farthest (in hops) from the border
-                hop = {v: min(h for t, h in enumerate(RG.bfs_hops(n, E, v)) if t in bv and h is not None) for v in inner}
-                mx = max(hop.values())
-                pool = [v for v in inner if hop[v] == mx]
-            else:
-                pool = cand
-            case["start"] = rnd.choice(pool)
-        else:
-            case["start"] = rnd.randrange(n)       # closed surface: the documented exception is expected
-        case["targets"] = []
-        case["tform"] = "border"
+        case["start"] = gen_border_start(draw, rnd, G)
+        case["targets"], case["tform"] = [], "border"
         return case
+    case["start"] = gen_start(draw, rnd, G)
+    case["targets"], case["tform"] = gen_targets(draw, rnd, G, entry, case["start"])
+    return case
 
-    nonisolated = [v for v in range(n) if deg[v] > 0]
-    if nonisolated and draw(st.integers(0, 11)) != 0:
-        start = rnd.choice(nonisolated)
-    else:
-        start = rnd.randrange(n)
-    comp = [v for v in range(n) if lab[v] == lab[start]]
-    others = [v for v in range(n) if lab[v] != lab[start]]
-    notstart = [v for v in comp if v != start] or comp
-    case["start"] = start
-    if entry == "p2p":
-        tform = draw(st.sampled_from(["int", "int", "list", "list", "set", "tuple"]))
-        style = draw(st.sampled_from(["few", "few", "few", "one", "one", "with-start", "whole-component"]))
-        if tform == "int" or style == "one":
-            targets = [rnd.choice(notstart if rnd.random() < 0.9 else comp)]
-        elif style == "whole-component":
-            targets = list(comp)
-            rnd.shuffle(targets)
+
+@st.composite
+def history_case(draw):
+    """several queries (and a few in-place edits of coordinates / custom weights) one after another on ONE mesh object"""
+    mesh = draw(meshes(kinds=("polyline", "polyline", "border-surface", "border-surface", "volume")))
+    case = scale_mesh(draw, dict(mesh))
+    G = GraphInfo(case)
+    nE = len(G.E)
+    case["Wt"], case["wkinds"] = gen_weight_tables(draw, nE, 2)
+    case["intvals"] = draw(st.booleans())
+    case["idform"] = draw(st.sampled_from(["int", "int", "int", "numpy"]))
+    case["intcoords"] = draw(st.booleans())
+    rnd = random.Random(draw(st.integers(0, 10 ** 6)))
+    nsteps = draw(st.integers(2, 6))
+    entries = ["p2p", "p2p", "set", "set", "set"] + (["border", "border"] if G.border_cand else [])
+    steps = []
+    prev = None                 # previous query
+    seen_targets = {}           # weight class -> members of earlier set/border target sets
+    V = [list(v) for v in case["V"]]
+    while len([s for s in steps if "entry" in s]) < nsteps:
+        if steps and prev is not None and draw(st.integers(0, 9)) == 0:
+            if draw(st.booleans()) or nE == 0:
+                # in-place edit of the geometry: a uniform rescaling about the origin or a few moved vertices
+                if draw(st.booleans()):
+                    f = rnd.choice([0.5, 2.0, 3.0, 10.0])
+                    upd = [[i, [x * f for x in V[i]]] for i in range(G.n)]
+                else:
+                    lo = [min(v[c] for v in V) for c in range(3)]; hi = [max(v[c] for v in V) for c in range(3)]
+                    upd = [[i, [rnd.uniform(lo[c], hi[c] if hi[c] > lo[c] else lo[c] + 1.0) for c in range(3)]]
+                           for i in rnd.sample(range(G.n), min(G.n, rnd.randint(1, 3)))]
+                for i, p in upd:
+                    V[i] = list(p)
+                steps.append({"op": "setV", "updates": upd})
+            else:
+                t = rnd.randrange(2)
+                base = case["wkinds"][t].split("*")
+                ws = float(base[1]) if len(base) > 1 else 1.0
+                ks = rnd.sample(range(nE), min(nE, rnd.randint(1, 4)))
+                vals = realise_weights(rnd, base[0], len(ks))
+                steps.append({"op": "setW", "wtab": t, "updates": [[k, w * ws] for k, w in zip(ks, vals)]})
+            continue
+        entry = draw(st.sampled_from(entries))
+        q = {"entry": entry}
+        if prev is not None and draw(st.integers(0, 9)) < 6:
+            q["wmode"], q["wtab"] = prev["wmode"], prev["wtab"]
         else:
-            targets = [rnd.choice(notstart) for _ in range(draw(st.integers(2, 6)))]
-            if style == "with-start":
-                targets.insert(rnd.randint(0, len(targets)), start)
-        if tform == "set":
-            targets = sorted(set(targets))
-    else:
-        tform = draw(st.sampled_from(["list", "list", "set", "tuple"]))
-        style = draw(st.sampled_from(["few", "few", "few", "one", "one", "with-start", "unreachable-extra", "whole-component"]))
-        if style == "one":
-            targets = [rnd.choice(notstart if rnd.random() < 0.85 else comp)]
-        elif style == "whole-component":
-            targets = list(comp)
-            rnd.shuffle(targets)
+            q["wmode"], q["wtab"] = draw(st.sampled_from(WMODES)), draw(st.integers(0, 1))
+        q["export"] = draw(st.sampled_from(["omitted", "omitted", False, True]))
+        wclass = weight_class(q["wmode"], q["wtab"])
+        avoid = seen_targets.get(wclass, set())
+        if entry == "border":
+            if prev is not None and prev["start"] in G.border_cand and draw(st.booleans()):
+                q["start"] = prev["start"]
+            else:
+                q["start"] = gen_border_start(draw, rnd, G)
+            q["targets"], q["tform"] = [], "border"
+            members = G.bv
         else:
-            targets = [rnd.choice(notstart) for _ in range(draw(st.integers(2, 6)))]
-            if style == "with-start":
-                targets.insert(rnd.randint(0, len(targets)), start)
-            if others and (style == "unreachable-extra" or draw(st.integers(0, 2)) == 0):
-                for _ in range(rnd.randint(1, 2)):
-                    targets.insert(rnd.randint(0, len(targets)), rnd.choice(others))
-        if tform == "set":
-            targets = sorted(set(targets))
-    case["targets"] = targets
-    case["tform"] = tform
+            if prev is not None and draw(st.integers(0, 9)) < 6:
+                q["start"] = prev["start"]
+            else:
+                q["start"] = gen_start(draw, rnd, G)
+            q["targets"], q["tform"] = gen_targets(draw, rnd, G, entry, q["start"], avoid=avoid)
+            members = set(q["targets"]) if entry == "set" else set()
+        seen_targets.setdefault(wclass, set()).update(members)
+        steps.append(q)
+        prev = q
+    case["steps"] = steps
     return case
 
 
 # ------------------------------------------------------------------------------------------------ oracles
+
+def weight_class(wmode, wtab):
+    return "one" if wmode == "one" else "length" if wmode in ("omitted", "length") else "custom%d" % wtab
+
 
 def is_intlike(x):
     import numpy as np
@@ -299,11 +430,27 @@ def dist3(p, q):
 
 
 def build_mesh(case):
+    V = case["V"]
+    if case.get("intcoords") and all(float(x).is_integer() and abs(x) < 2 ** 40 for v in V for x in v):
+        # integer-typed coordinates (numpy int64 rows), as obtained from integer arrays
+        import numpy as np
+        import mouette as M
+        from mouette.mesh.mesh_data import RawMeshData
+        raw = RawMeshData()
+        raw.vertices += [np.array([int(x) for x in v], dtype=np.int64) for v in V]
+        if case["kind"] == "polyline":
+            raw.edges += [tuple(e) for e in case["E"]]
+            return M.mesh.PolyLine(raw), True
+        if case["kind"] == "surface":
+            raw.faces += [list(f) for f in case["F"]]
+            return M.mesh.SurfaceMesh(raw), True
+        raw.cells += [list(c) for c in case["C"]]
+        return M.mesh.VolumeMesh(raw), True
     if case["kind"] == "polyline":
-        return polyline_from(case["V"], case["E"])
+        return polyline_from(V, case["E"]), False
     if case["kind"] == "surface":
-        return surface_from(case["V"], case["F"])
-    return volume_from(case["V"], case["C"])
+        return surface_from(V, case["F"]), False
+    return volume_from(V, case["C"]), False
 
 
 def close_w(got, exp, wmax):
@@ -368,69 +515,165 @@ def check_polyline(ctx, sig, pm, paths, V, start):
     ctx.check(ok_iso, sig + ":edges", f"polyline vertices {iso} belong to no edge although they are not a one-vertex path. {desc}")
 
 
-def fn(case, ctx):
-    import mouette as M
-    from mouette.processing import paths as LP
-    kind, V, entry = case["kind"], case["V"], case["entry"]
-    n = len(V)
-    E = ref_edges(case)
-    start = int(case["start"])
-    targets = [int(t) for t in case["targets"]]
-    wmode, export = case["wmode"], case["export"]
+class Env:
+    """one mesh object + the harness's model of it (coordinates, custom weight tables, the weight argument objects)"""
 
-    # ---- fresh mesh, edge ids as the library numbers them
-    mesh = build_mesh(case)
-    try:
-        medges = [key(e) for e in mesh.edges]
-    except Exception as e:
-        raise AssertionError(f"cannot read mesh.edges: {e!r}")
-    if not ctx.check(sorted(medges) == E, "pre:edge-container",
-                     f"mesh.edges is not the 1-skeleton of the input ({len(medges)} edges vs {len(E)} expected)"):
-        return
-    Wkey = dict(zip(E, case["W"]))
+    def __init__(self, case, ctx):
+        self.case, self.ctx = case, ctx
+        self.kind = case["kind"]
+        self.V = [[float(x) for x in v] for v in case["V"]]
+        self.n = len(self.V)
+        self.E = ref_edges(case)
+        self.lab = RG.component_labels(self.n, self.E)
+        self.tabs = [list(map(float, t)) for t in (case["Wt"] if "Wt" in case else [case["W"]])]
+        self.mesh, self.int_coords = build_mesh(case)
+        try:
+            self.medges = [key(e) for e in self.mesh.edges]
+        except Exception as e:
+            raise AssertionError(f"cannot read mesh.edges: {e!r}")
+        self.ok = ctx.check(sorted(self.medges) == self.E, "pre:edge-container",
+                            f"mesh.edges is not the 1-skeleton of the input ({len(self.medges)} edges vs {len(self.E)} expected)")
+        self.kidx = {k: i for i, k in enumerate(self.E)}           # edge key -> index in the weight tables
+        self.wargs = {}                                            # (wtab, wmode) -> the argument object, reused between calls
+        self.bv = sorted(SurfRef(self.n, case["F"]).border_vertices()) if self.kind == "surface" else []
+        self.history = []                                          # (wclass, kind of query, target members) of earlier queries
+        self.nfaces = len(self.mesh.faces) if self.kind == "surface" else None
 
-    # ---- the weights argument and the reference weights
-    wclass = "one" if wmode == "one" else "length" if wmode in ("omitted", "length") else "custom"
-    if wclass == "one":
-        wref = {k: 1.0 for k in E}
-    elif wclass == "length":
-        wref = {k: dist3(V[k[0]], V[k[1]]) for k in E}
-    else:
-        wref = {k: float(Wkey[k]) for k in E}
-    integral = all(float(w).is_integer() for w in case["W"])
-    if wmode == "dict":
-        if case["intvals"] and integral:
-            warg = {i: int(Wkey[k]) for i, k in enumerate(medges)}
-            ctx.label("dict-of-ints")
+    # ---- weights
+    def wvalue(self, tab, k):
+        return self.tabs[tab][self.kidx[k]]
+
+    def intdict(self, tab):
+        return bool(self.case.get("intvals")) and all(float(w).is_integer() and abs(w) < 2 ** 50 for w in self.tabs[tab])
+
+    def weight_arg(self, wmode, tab):
+        """the object passed as `weights` (None = argument omitted); the same object is handed to every call that uses
+        the same table and mode"""
+        if wmode == "omitted":
+            return None
+        if wmode in ("one", "length"):
+            return wmode
+        if (tab, wmode) in self.wargs:
+            return self.wargs[(tab, wmode)]
+        if wmode == "dict":
+            if self.intdict(tab):
+                arg = {i: int(self.wvalue(tab, k)) for i, k in enumerate(self.medges)}
+                self.ctx.label("dict-of-ints")
+            else:
+                arg = {i: float(self.wvalue(tab, k)) for i, k in enumerate(self.medges)}
         else:
-            warg = {i: float(Wkey[k]) for i, k in enumerate(medges)}
-    elif wmode in ("attr", "attr_partial", "attr_dense"):
-        warg = mesh.edges.create_attribute("c09_w", float, dense=(wmode == "attr_dense"))
-        for i, k in enumerate(medges):
-            if wmode == "attr_partial" and Wkey[k] == 0.0:
-                continue          # left at the attribute's default value 0.0
-            warg[i] = float(Wkey[k])
-    elif wmode == "omitted":
-        warg = None
+            arg = self.mesh.edges.create_attribute(f"c09_w{tab}_{wmode}", float, dense=(wmode == "attr_dense"))
+            for i, k in enumerate(self.medges):
+                if wmode == "attr_partial" and self.wvalue(tab, k) == 0.0:
+                    continue          # left at the attribute's default value 0.0
+                arg[i] = float(self.wvalue(tab, k))
+        self.wargs[(tab, wmode)] = arg
+        return arg
+
+    def ref_weights(self, wmode, tab):
+        wclass = weight_class(wmode, tab)
+        if wclass == "one":
+            w = {k: 1.0 for k in self.E}
+        elif wclass == "length":
+            w = {k: dist3(self.V[k[0]], self.V[k[1]]) for k in self.E}
+        else:
+            w = {k: self.wvalue(tab, k) for k in self.E}
+        return [(a, b, w[(a, b)]) for (a, b) in self.E]
+
+    # ---- edits between queries
+    def set_vertices(self, updates):
+        import mouette as M
+        for i, p in updates:
+            self.V[i] = [float(x) for x in p]
+            self.mesh.vertices[i] = M.Vec(float(p[0]), float(p[1]), float(p[2]))
+        self.int_coords = False
+
+    def set_weights(self, tab, updates):
+        for kk, w in updates:
+            self.tabs[tab][kk] = float(w)
+        for (t, wmode), arg in self.wargs.items():
+            if t != tab:
+                continue
+            isint = wmode == "dict" and all(isinstance(x, int) for x in arg.values())
+            for kk, w in updates:
+                i = self.medges.index(self.E[kk])
+                if isint and float(w).is_integer():
+                    arg[i] = int(w)
+                else:
+                    arg[i] = float(w)
+
+    # ---- nothing handed to the library may be changed by it
+    def check_unchanged(self, sig, what):
+        ctx = self.ctx
+        try:
+            mv = [[float(x) for x in v] for v in self.mesh.vertices]
+            me = [key(e) for e in self.mesh.edges]
+        except Exception as e:
+            ctx.fail(sig + ":mesh-changed", f"{what}: mesh unreadable after the query: {e!r}")
+            return False
+        ok = ctx.check(mv == self.V and me == self.medges and (self.nfaces is None or len(self.mesh.faces) == self.nfaces),
+                       sig + ":mesh-changed", f"{what}: the query modified the mesh (vertices {len(mv)}/{self.n}, edges {len(me)}/{len(self.medges)})")
+        for (tab, wmode), arg in self.wargs.items():
+            if wmode == "dict":
+                good = len(arg) == len(self.medges) and all(arg.get(i) == self.wvalue(tab, k) for i, k in enumerate(self.medges))
+            else:
+                good = all(float(arg[i]) == self.wvalue(tab, k) for i, k in enumerate(self.medges))
+            ok = ctx.check(good, sig + ":weights-changed", f"{what}: the weights object ({wmode}, table {tab}) no longer holds the caller's values") and ok
+        return ok
+
+
+def make_ids(idform, tform, start, targets):
+    """start / targets in the form handed to the library, and a snapshot function telling whether targets were modified"""
+    import numpy as np
+    cv = (lambda x: np.int64(x)) if idform == "numpy" else int
+    s = cv(start)
+    if tform == "int":
+        targ = int(targets[0])                 # a scalar target is documented as `int`
+    elif tform == "set":
+        targ = set(cv(t) for t in targets)
+    elif tform == "tuple":
+        targ = tuple(cv(t) for t in targets)
+    elif tform == "array":
+        targ = np.array([int(t) for t in targets], dtype=np.int64)
     else:
-        warg = wmode
-    wedges = [(a, b, wref[(a, b)]) for (a, b) in E]
+        targ = [cv(t) for t in targets]
+
+    def unchanged():
+        if tform == "int":
+            return True
+        if tform == "array":
+            return isinstance(targ, np.ndarray) and [int(x) for x in targ] == [int(t) for t in targets]
+        if tform == "set":
+            return isinstance(targ, set) and sorted(int(x) for x in targ) == sorted(set(int(t) for t in targets))
+        return type(targ) in (list, tuple) and [int(x) for x in targ] == [int(t) for t in targets]
+    return s, targ, unchanged
+
+
+def run_query(env, q, ctx, where=""):
+    """issue one query on env.mesh and validate the answer against the reference. Returns False if later queries of a
+    history should not be judged any more."""
+    from mouette.processing import paths as LP
+    V, n, E, lab, mesh = env.V, env.n, env.E, env.lab, env.mesh
+    entry = q["entry"]
+    start = int(q["start"])
+    targets = [int(t) for t in q["targets"]]
+    wmode, export, tab = q["wmode"], q["export"], int(q.get("wtab", 0))
+    idform = env.case.get("idform", "int")
+    wclass = weight_class(wmode, tab)
+    wc = wclass.rstrip("01")                   # one / length / custom (signatures do not depend on the table)
+    warg = env.weight_arg(wmode, tab)
+    wedges = env.ref_weights(wmode, tab)
     wmax = max([w for _, _, w in wedges] + [0.0])
     dist = RG.bellman_ford(n, wedges, start)
+    wref = {(a, b): w for a, b, w in wedges}
 
-    # ---- labels
-    for t in case.get("tags", []):
-        if t.startswith(("base=", "shape=", "comps=", "closed", "bordered", "second-component", "isolated", "coords=")):
-            ctx.label(t)
-    ctx.label("kind=" + kind, "wmode=" + wmode, "export=" + str(export), "tform=" + case["tform"])
-    if wclass == "custom":
-        ctx.label("wkind=" + case["wkind"])
+    ctx.label("wmode=" + wmode, "export=" + str(export), "tform=" + q["tform"], "entry=" + entry)
+    if wc == "custom":
+        ctx.label("wkind=" + (env.case["wkinds"][tab] if "wkinds" in env.case else env.case["wkind"]))
     if any(w == 0.0 for _, _, w in wedges):
         ctx.label("has-zero-weight-edge")
-    lab = RG.component_labels(n, E)
 
-    args = []
-    kwargs = {}
+    args, kwargs = [], {}
     if warg is not None:
         args.append(warg)
     if export != "omitted":
@@ -444,10 +687,18 @@ def fn(case, ctx):
         nb = [a if b == t else b for (a, b) in E if t in (a, b)]
         return sum(1 for u in nb if close_w(dist[u] + wref[key(u, t)], dist[t], wmax)) >= 2
 
+    def stale_winner(members, dmin):
+        """a member of an earlier target set (same weight class) that is not requested now but at least as near"""
+        old = set()
+        for (wcl, ent, mem) in env.history:
+            if wcl == wclass and ent in ("set", "border"):
+                old |= mem
+        return any(m not in members and dist[m] <= dmin for m in old)
+
     # =============================================================================== point to point
     if entry == "p2p":
-        tform = case["tform"]
-        targ = targets[0] if tform == "int" else set(targets) if tform == "set" else tuple(targets) if tform == "tuple" else list(targets)
+        tform = q["tform"]
+        s_arg, targ, targ_unchanged = make_ids(idform, tform, start, targets)
         tset = sorted(set(targets))
         assert all(lab[t] == lab[start] for t in tset), "generator: unreachable point-to-point target"
         ctx.label("ntargets=" + ("1" if len(tset) == 1 else "2-3" if len(tset) <= 3 else "4+"))
@@ -455,35 +706,39 @@ def fn(case, ctx):
         if len(targets) != len(tset): ctx.label("duplicate-targets")
         if any(t != start and tie_at(t) for t in tset): ctx.label("tie")
         ctx.nontrivial(any(RG.has_two_simple_paths(n, E, start, t) for t in tset))
-        sig = f"p2p/{wclass}"
-        ok, res = ctx.call(sig, LP.shortest_path, mesh, start, targ, *args, **kwargs)
+        sig = f"p2p/{wc}"
+        what = f"{where}start {start}, targets {tset} given as {tform}"
+        ok, res = ctx.call(sig, LP.shortest_path, mesh, s_arg, targ, *args, **kwargs)
+        env.history.append((wclass, "p2p", set(tset)))
         if not ok:
-            return
+            return False
+        ctx.check(targ_unchanged(), sig + ":targets-changed", f"{what}: the targets argument was modified by the call: {targ!r}")
+        env.check_unchanged(sig, what)
         pm = None
         if want_mesh:
-            if not ctx.check(isinstance(res, tuple) and len(res) == 2, sig + ":return", f"export_path_mesh=True must return (dict, PolyLine), got {type(res).__name__}"):
-                return
+            if not ctx.check(isinstance(res, tuple) and len(res) == 2, sig + ":return", f"{what}: export_path_mesh=True must return (dict, PolyLine), got {type(res).__name__}"):
+                return False
             res, pm = res
-        if not ctx.check(isinstance(res, dict), sig + ":return", f"paths are returned as {type(res).__name__}, not dict"):
-            return
+        if not ctx.check(isinstance(res, dict), sig + ":return", f"{what}: paths are returned as {type(res).__name__}, not dict"):
+            return False
         keys = list(res.keys())
         if not ctx.check(all(is_intlike(k) for k in keys) and sorted(int(k) for k in keys) == tset, sig + ":keys",
-                         f"result keys {keys!r} are not the requested targets {tset}"):
-            return
+                         f"{what}: result keys {keys!r} are not the requested targets {tset}"):
+            return False
         paths = []
         for t in tset:
-            w = check_path(ctx, sig, f"start {start}, target {t}, targets given as {tform}", res[t], start, t, wedges, dist[t], wmax)
+            w = check_path(ctx, sig, f"{what}, target {t}", res[t], start, t, wedges, dist[t], wmax)
             if w is None:
-                return
+                return False
             paths.append([int(v) for v in res[t]])
         if want_mesh:
             check_polyline(ctx, f"p2p-export/{'multi' if len(tset) > 1 else 'single'}", pm, paths, V, start)
-        return
+        return True
 
     # =============================================================================== vertex set
     if entry == "set":
-        tform = case["tform"]
-        targ = set(targets) if tform == "set" else tuple(targets) if tform == "tuple" else list(targets)
+        tform = q["tform"]
+        s_arg, targ, targ_unchanged = make_ids(idform, tform, start, targets)
         tset = sorted(set(targets))
         reach = [t for t in tset if lab[t] == lab[start]]
         assert reach, "generator: no reachable member"
@@ -493,80 +748,150 @@ def fn(case, ctx):
         if len(reach) < len(tset): ctx.label("unreachable-extra-members")
         if sum(1 for t in reach if close_w(dist[t], dmin, wmax)) >= 2: ctx.label("several-nearest-members")
         if any(t != start and tie_at(t) for t in reach): ctx.label("tie")
+        if stale_winner(set(tset), dmin): ctx.label("hist:earlier-target-at-least-as-near(same-weights)")
         ctx.nontrivial(any(RG.has_two_simple_paths(n, E, start, t) for t in reach))
-        sig = f"set/{wclass}/{'single' if len(targets) == 1 else 'multi'}"
-        ok, res = ctx.call(sig, LP.shortest_path_to_vertex_set, mesh, start, targ, *args, **kwargs)
+        sig = f"set/{wc}/{'single' if len(targets) == 1 else 'multi'}"
+        what = f"{where}start {start}, set {tset} given as {tform}"
+        ok, res = ctx.call(sig, LP.shortest_path_to_vertex_set, mesh, s_arg, targ, *args, **kwargs)
+        env.history.append((wclass, "set", set(tset)))
         if not ok:
-            return
+            return False
+        ctx.check(targ_unchanged(), sig + ":targets-changed", f"{what}: the targets argument was modified by the call: {targ!r}")
+        env.check_unchanged(sig, what)
         nret = 3 if want_mesh else 2
         if not ctx.check(isinstance(res, tuple) and len(res) == nret, sig + ":return",
-                         f"expected a {nret}-tuple (index, path{', PolyLine' if want_mesh else ''}), got {res!r}"[:300]):
-            return
+                         f"{what}: expected a {nret}-tuple (index, path{', PolyLine' if want_mesh else ''}), got {res!r}"[:400]):
+            return False
         ind, path = res[0], res[1]
-        if not ctx.check(is_intlike(ind) and int(ind) in tset, sig + ":member", f"returned index {ind!r} is not a member of the target set {tset}"):
-            return
+        if not ctx.check(is_intlike(ind) and int(ind) in tset, sig + ":member", f"{what}: returned index {ind!r} is not a member of the target set"):
+            return False
         ind = int(ind)
         if not ctx.check(close_w(dist[ind], dmin, wmax), sig + ":nearest",
-                         f"returned member {ind} is at distance {dist[ind]!r} from {start}, but the nearest member is at {dmin!r} "
+                         f"{what}: returned member {ind} is at distance {dist[ind]!r} from {start}, but the nearest member is at {dmin!r} "
                          f"(distances {[(t, dist[t]) for t in tset]})"):
-            return
-        w = check_path(ctx, sig, f"start {start}, set {tset} given as {tform}, returned member {ind}", path, start, ind, wedges, dist[ind], wmax)
+            return False
+        w = check_path(ctx, sig, f"{what}, returned member {ind}", path, start, ind, wedges, dist[ind], wmax)
         if w is None:
-            return
+            return False
         if want_mesh:
             check_polyline(ctx, "set-export", res[2], [[int(v) for v in path]], V, start)
-        return
+        return True
 
     # =============================================================================== border
     if entry == "border":
-        ref = SurfRef(n, case["F"])
-        bv = sorted(ref.border_vertices())
-        sig = f"border/{wclass}"
+        bv = env.bv
+        sig = f"border/{wc}"
+        what = f"{where}start {start}, border"
+        s_arg = make_ids(idform, "list", start, [])[0]
         if not bv:
             ctx.label("closed->documented-exception")
             try:
-                r = LP.shortest_path_to_border(mesh, start, *args, **kwargs)
+                r = LP.shortest_path_to_border(mesh, s_arg, *args, **kwargs)
             except Exception as e:
                 ctx.check("border" in str(e).lower(), sig + ":closed", f"closed surface: expected the documented 'Mesh has no border' exception, got {e!r}")
-                return
+                return True
             ctx.fail(sig + ":closed", f"closed surface: shortest_path_to_border returned {r!r} instead of raising")
-            return
+            return False
         reach = [t for t in bv if lab[t] == lab[start]]
         if not reach:
             ctx.label("start-component-closed(skipped)")
             ctx.discard("border: start's component has no border")
-            return
+            return True
         dmin = min(dist[t] for t in reach)
         if start in bv: ctx.label("start-on-border")
         if len(reach) < len(bv): ctx.label("border-in-other-components")
         if sum(1 for t in reach if close_w(dist[t], dmin, wmax)) >= 2: ctx.label("several-nearest-members")
-        ctx.label("border-distance-hops=" + str(min(3, min(h for t, h in enumerate(RG.bfs_hops(n, E, start)) if t in set(reach)))))
-        ctx.nontrivial(any(RG.has_two_simple_paths(n, E, start, t) for t in reach if close_w(dist[t], dmin, wmax)))
-        ok, res = ctx.call(sig, LP.shortest_path_to_border, mesh, start, *args, **kwargs)
+        hops = RG.bfs_hops(n, E, start)
+        ctx.label("border-distance-hops=" + str(min(3, min(hops[t] for t in reach))))
+        nearest = [t for t in reach if close_w(dist[t], dmin, wmax)]
+        if min(hops[t] for t in nearest) > min(hops[t] for t in reach):
+            ctx.label("nearest-border-vertex-is-not-nearest-in-hops")
+        if stale_winner(set(bv), dmin): ctx.label("hist:earlier-target-at-least-as-near(same-weights)")
+        ctx.nontrivial(any(RG.has_two_simple_paths(n, E, start, t) for t in nearest))
+        ok, res = ctx.call(sig, LP.shortest_path_to_border, mesh, s_arg, *args, **kwargs)
+        env.history.append((wclass, "border", set(bv)))
         if not ok:
-            return
+            return False
+        env.check_unchanged(sig, what)
         pm = None
         if want_mesh:
-            if not ctx.check(isinstance(res, tuple) and len(res) == 2, sig + ":return", f"export_path_mesh=True must return (path, PolyLine), got {res!r}"[:300]):
-                return
+            if not ctx.check(isinstance(res, tuple) and len(res) == 2, sig + ":return", f"{what}: export_path_mesh=True must return (path, PolyLine), got {res!r}"[:400]):
+                return False
             res, pm = res
         path = res
         if not ctx.check(isinstance(path, (list, tuple)) and len(path) >= 1 and all(is_intlike(v) for v in path), sig + ":shape",
-                         f"path is not a non-empty list of vertex ids: {path!r}"):
-            return
+                         f"{what}: path is not a non-empty list of vertex ids: {path!r}"):
+            return False
         end = int(path[-1])
-        if not ctx.check(end in bv, sig + ":member", f"path {list(path)} from {start} does not end on the border {bv}"):
-            return
+        if not ctx.check(end in bv, sig + ":member", f"{what}: path {list(path)} does not end on the border {bv}"):
+            return False
         if not ctx.check(close_w(dist[end], dmin, wmax), sig + ":nearest",
-                         f"path ends at border vertex {end} at distance {dist[end]!r}, the nearest border vertex is at {dmin!r}"):
-            return
-        w = check_path(ctx, sig, f"start {start}, border", path, start, end, wedges, dist[end], wmax)
+                         f"{what}: path ends at border vertex {end} at distance {dist[end]!r}, the nearest border vertex is at {dmin!r}"):
+            return False
+        w = check_path(ctx, sig, what, path, start, end, wedges, dist[end], wmax)
         if w is None:
-            return
+            return False
         if want_mesh:
             check_polyline(ctx, "border-export", pm, [[int(v) for v in path]], V, start)
-        return
+        return True
     raise AssertionError(entry)
+
+
+def label_mesh(case, env, ctx):
+    for t in case.get("tags", []):
+        if t.startswith(("base=", "shape=", "comps=", "closed", "bordered", "second-component", "isolated", "coords=", "scale=")):
+            ctx.label(t)
+    ctx.label("kind=" + case["kind"], "ids=" + case.get("idform", "int"))
+    if env.int_coords:
+        ctx.label("integer-typed-coordinates")
+
+
+def fn(case, ctx):
+    """one query on a fresh mesh"""
+    env = Env(case, ctx)
+    if not env.ok:
+        return
+    label_mesh(case, env, ctx)
+    run_query(env, case, ctx)
+
+
+def fn_history(case, ctx):
+    """several queries, interleaved with in-place edits of coordinates / custom weights, on ONE mesh object"""
+    env = Env(case, ctx)
+    if not env.ok:
+        return
+    label_mesh(case, env, ctx)
+    steps = case["steps"]
+    queries = [s for s in steps if "entry" in s]
+    ctx.label("queries=" + str(len(queries)))
+    seen = []
+    k = 0
+    for s in steps:
+        if s.get("op") == "setV":
+            env.set_vertices(s["updates"])
+            ctx.label("hist:geometry-edited-between-queries")
+            continue
+        if s.get("op") == "setW":
+            env.set_weights(int(s["wtab"]), s["updates"])
+            ctx.label("hist:custom-weights-edited-between-queries")
+            continue
+        k += 1
+        wcl = weight_class(s["wmode"], int(s.get("wtab", 0)))
+        for (e0, w0, st0, tg0) in seen:
+            if w0 == wcl and e0 in ("set", "border") and s["entry"] in ("set", "border"):
+                ctx.label("hist:set/border-query-repeated-with-same-weights")
+                if (e0, tg0) != (s["entry"], sorted(set(s["targets"]))):
+                    ctx.label("hist:...-and-a-different-target-set")
+            if w0 == wcl and e0 == "p2p" and s["entry"] == "p2p":
+                ctx.label("hist:p2p-repeated-with-same-weights")
+            if w0 != wcl:
+                ctx.label("hist:weight-mode-switched")
+            if st0 == s["start"]:
+                ctx.label("hist:same-start-again")
+        seen.append((s["entry"], wcl, s["start"], sorted(set(s["targets"]))))
+        prev = [x["entry"] for x in queries[:k - 1]]
+        if not run_query(env, s, ctx, where=f"query #{k} of {len(queries)} on the same mesh (earlier: {prev[-4:]}): "):
+            return
 
 
 def self_test():
@@ -575,12 +900,14 @@ def self_test():
     wed = [(0, 1, 1.0), (1, 2, 1.0), (0, 2, 3.0)]
     assert RG.bellman_ford(3, wed, 0) == [0.0, 1.0, 2.0]
     assert close_w(2.0, 2.0 + 1e-12, 3.0) and not close_w(3.0, 2.0, 3.0) and close_w(0.0, 0.0, 0.0) and not close_w(1e-30, 0.0, 0.0)
+    assert close_w(2e-6, 2e-6 * (1 + 1e-12), 3e-6) and not close_w(3e-6, 2e-6, 3e-6)
 
 
 SUBCHECKS = [
-    SubCheck("point_to_point", query_case("p2p"), fn, quick=2500, thorough=2500),
-    SubCheck("vertex_set", query_case("set"), fn, quick=2000, thorough=2000),
-    SubCheck("border", query_case("border"), fn, quick=1000, thorough=1000),
+    SubCheck("point_to_point", query_case("p2p"), fn, quick=2500, thorough=5000),
+    SubCheck("vertex_set", query_case("set"), fn, quick=2000, thorough=4000),
+    SubCheck("border", query_case("border"), fn, quick=1200, thorough=2500),
+    SubCheck("history", history_case(), fn_history, quick=2500, thorough=5000),
 ]
 
 MATCHERS = {}
